@@ -280,7 +280,7 @@ def _run_case(args):
         signal.alarm(0)
 
 
-def run_cases(fn, cases, timeout=120, procs=None, chunksize=4):
+def run_cases(fn, cases, timeout=120, procs=None, chunksize=4, isolate=False):
     """Run fn(case) for every case in forked worker processes; returns results in order.
     fn must be a module-level function; it returns a JSON-able record."""
     procs = procs or NCPU
@@ -288,8 +288,10 @@ def run_cases(fn, cases, timeout=120, procs=None, chunksize=4):
         return []
     tmproot()  # create before fork so that children share it
     ctx = mp.get_context("fork")
-    with ctx.Pool(procs, initializer=_worker_init, maxtasksperchild=200) as pool:
-        res = pool.map(_run_case, [(fn, c, timeout) for c in cases], chunksize=chunksize)
+    # isolate: every case in a brand-new process (fresh import of the code under test), so that
+    # process-lifetime state of the code (C09) cannot leak from one case into another
+    with ctx.Pool(procs, initializer=_worker_init, maxtasksperchild=1 if isolate else 200) as pool:
+        res = pool.map(_run_case, [(fn, c, timeout) for c in cases], chunksize=1 if isolate else chunksize)
     return res
 
 
